@@ -23,7 +23,7 @@ RULE = ('import form of module A x import form of module B (incl. colliding alia
         're-parse on a reset gin; negative menu (foreign imports, reserved name, late/aliased enabling, unknown feature, '
         'missing attribute). non-trivial = two modules or an alias involved.')
 ASSUMPTIONS = ['generated package c19pkg on sys.path (created per run, removed at exit)', 'in-memory reader for included files']
-WITNESSES = ['bound_name_equal_to_package', 'wrapper_and_wrapped_distinct', 'exact_object_configured', 'spellings_alias_same_configurable', 'method_configured', 'nested_class_configured',
+WITNESSES = ['nested_class_method_configured', 'bound_name_equal_to_package', 'wrapper_and_wrapped_distinct', 'exact_object_configured', 'spellings_alias_same_configurable', 'method_configured', 'nested_class_configured',
              'reference_survives_method_registration', 'foreign_import_rejected', 'reserved_gin_rejected',
              'late_enabling_rejected', 'aliased_enabling_rejected', 'unknown_feature_rejected', 'config_str_reparses',
              'colliding_names_realiased', 'missing_attribute_rejected']
@@ -108,6 +108,20 @@ load_lru = functools.lru_cache(maxsize=None)(load2)
 
 def consume(source=None):
   return source
+
+class Trainer:
+  def __init__(self, lr=None):
+    self.lr = lr
+  def fit(self, epochs='de'):
+    return ('fit', epochs)
+  class Schedule:
+    def __init__(self, steps=None):
+      self.steps = steps
+    def rate(self, warmup='dw'):
+      return ('rate', warmup)
+    class Decay:
+      def factor(self, gamma='dg'):
+        return ('factor', gamma)
 ''')
   sys.path.insert(0, d)
   import atexit
@@ -621,7 +635,60 @@ def run_special(case, res):
   res.w('bound_name_equal_to_package' if 'load' not in ''.join(texts) else 'wrapper_and_wrapped_distinct')
 
 
+NESTED_FORMS = [('from c19tool import c19tool as t', 't'), ('import c19tool.c19tool', 'c19tool.c19tool'),
+                ('from c19tool import c19tool', 'c19tool'), ('import c19tool.c19tool as c19tool', 'c19tool')]
+
+
+def run_nested(case, res):
+  """Methods of nested classes (any depth), configured before / after a reference to the class exists."""
+  _, fi, order = case
+  imp, pre = NESTED_FORMS[fi]
+  lines = {'ref': '%s.consume.source = @%s.Trainer.Schedule()' % (pre, pre),
+           'rate': "%s.Trainer.Schedule.rate.warmup = 'W'" % pre,
+           'factor': "%s.Trainer.Schedule.Decay.factor.gamma = 'G'" % pre,
+           'fit': "%s.Trainer.fit.epochs = 'E'" % pre,
+           'steps': '%s.Trainer.Schedule.steps = 7' % pre}
+  text = HEAD + imp + '\n' + '\n'.join(lines[k] for k in order) + '\n'
+  harness.hard_reset()
+  MEM.clear()
+  res.case(tuple(map(str, case)), True)
+  import c19tool  # pylint: disable=import-outside-toplevel
+  m = c19tool.c19tool
+  want = {'rate': ('rate', 'W'), 'factor': ('factor', 'G'), 'fit': ('fit', 'E'), 'steps': 7, 'ref.rate': ('rate', 'W'),
+          'ref.steps': 7}
+
+  def observe():
+    obs = {}
+    obs['rate'] = gin.get_configurable(m.Trainer.Schedule)().rate()
+    obs['steps'] = gin.get_configurable(m.Trainer.Schedule)().steps
+    obs['factor'] = gin.get_configurable(m.Trainer.Schedule.Decay)().factor()
+    obs['fit'] = gin.get_configurable(m.Trainer)().fit()
+    inst = gin.get_configurable(m.consume)()
+    obs['ref.rate'], obs['ref.steps'] = inst.rate(), inst.steps
+    return obs
+  try:
+    gin.parse_config(text)
+    got = observe()
+    emitted = gin.config_str()
+    harness.hard_reset()
+    gin.parse_config(emitted)
+    again = observe()
+  except Exception as e:  # pylint: disable=broad-except
+    res.violation('nested_class_method', '%r: config\n%s\nraised %r' % (case, text, e), list(case))
+    return
+  res.outcome('nested')
+  if got != want or again != want:
+    res.violation('nested_class_method', '%r: config\n%s\nobjects see %r (after re-parsing the config string %r), expected %r'
+                  % (case, text, got, again, want), list(case))
+  else:
+    res.w('nested_class_method_configured')
+
+
 def gen(tier):
+  for fi in range(len(NESTED_FORMS)):
+    for order in (['ref', 'rate', 'factor', 'fit', 'steps'], ['rate', 'factor', 'fit', 'steps', 'ref'],
+                  ['steps', 'ref', 'factor', 'rate', 'fit']):
+      yield ['nested', fi, order]
   for n in SPECIAL:
     yield ['special', n]
   yield from multi_cases()
@@ -650,7 +717,7 @@ def run_shard(i, tier):
     if n % NSH != i:
       continue
     try:
-      {'neg': run_negative, 'multi': run_multi, 'plain': run_plain, 'special': run_special}.get(c[0], run_case)(c, res)
+      {'neg': run_negative, 'multi': run_multi, 'plain': run_plain, 'special': run_special, 'nested': run_nested}.get(c[0], run_case)(c, res)
     except Exception:  # pylint: disable=broad-except
       import traceback
       res.extra['harness_error'] = traceback.format_exc() + '\ncase=%r' % (c,)
@@ -663,6 +730,6 @@ def run_shard(i, tier):
 
 def replay(c):
   res = core.Result()
-  {'neg': run_negative, 'multi': run_multi, 'plain': run_plain, 'special': run_special}.get(c[0], run_case)(c, res)
+  {'neg': run_negative, 'multi': run_multi, 'plain': run_plain, 'special': run_special, 'nested': run_nested}.get(c[0], run_case)(c, res)
   harness.hard_reset()
   return res
